@@ -50,10 +50,37 @@ func c15Names(c *Check, P string) {
 			}
 		}
 		c.Floor(P+".O6", name+`: fmt.Sprintf("%T", v)`, n, 1)
+		// "it ignores if the value is a pointer or not": every leading pointer marker goes (TrimLeft with the cutset "*"),
+		// not just one (TrimPrefix) — **T and *T and T must name the same type
+		for _, cl := range CallsIn(fn) {
+			switch CalleeName(cl) {
+			case "strings.TrimPrefix", "strings.CutPrefix":
+				// (in a loop that goes on while there is a '*' to remove it is the same as TrimLeft)
+				if sep, isC := ConstString(cl.Common().Args[1]); isC && sep == "*" && !InLoop(cl) {
+					c.Report(false, P+".O6", "NAME-DROPS-EVERY-POINTER-MARKER", fn, cl.Pos(), name, "all leading '*' of the %T text are removed (a name that keeps one differs between a value and a pointer to a pointer to it)")
+				}
+			case "strings.TrimLeft":
+				sep, isC := ConstString(cl.Common().Args[1])
+				c.Report(isC && sep == "*", P+".O6", "NAME-DROPS-EVERY-POINTER-MARKER", fn, cl.Pos(), name, "all leading '*' of the %T text are removed (a name that keeps one differs between a value and a pointer to a pointer to it)")
+			}
+		}
 		cut := false
 		AllInstrs(fn, func(in ssa.Instruction) {
 			if sl, ok := in.(*ssa.Slice); ok {
 				if b, isB := sl.X.Type().Underlying().(*types.Basic); isB && b.Kind() == types.String {
+					// s[strings.LastIndex(s, ".")+1:] is the last segment of strings.Split(s, "."): the package prefix is
+					// dropped (documented for StructName), nothing is cut off at the end
+					if name == "StructName" && sl.High == nil {
+						if bo, isBO := sl.Low.(*ssa.BinOp); isBO && bo.Op == token.ADD {
+							one, isOne := IntConst(bo.Y)
+							li, isLI := bo.X.(*ssa.Call)
+							if isOne && one == 1 && isLI && CalleeName(li) == "strings.LastIndex" && li.Call.Args[0] == sl.X {
+								if sep, isC := ConstString(li.Call.Args[1]); isC && sep == "." {
+									return
+								}
+							}
+						}
+					}
 					cut = true
 					c.Report(false, P+".O6", "NAME-KEEPS-TYPE-TEXT", fn, sl.Pos(), name+": string slicing", "the type name is not truncated at a position found in the text (type arguments of generic types, for instance, are part of what tells two types apart)")
 				}
@@ -148,6 +175,7 @@ func runC15(c *Check) {
 	c15Ctx(c, P)
 	c15GenericHandlers(c, P)
 	c15Registration(c, P)
+	c15UnsetConfigFields(c, P+".O5")
 }
 
 // c15Registration: what a processor registers on the router — the subscribe topic is what the configured
@@ -230,6 +258,103 @@ func c15Registration(c *Check, P string) {
 		}
 	}
 	c.Floor(P+".O1", "AddNoPublisherHandler registrations in package cqrs", n, 2)
+	// the processors' own registration API: a handler that was accepted (nil error) was recorded in the processor's list
+	// and — unless the processor was built by the deprecated constructor, which registers later, all at once — added
+	// to the router; the deferred registration adds every recorded handler
+	nreg := 0
+	for _, tn := range []string{"CommandProcessor", "EventProcessor"} {
+		T := c.P.Named(rel, tn)
+		if T == nil {
+			continue
+		}
+		var listF *types.Var
+		if st, ok := T.Underlying().(*types.Struct); ok {
+			for i := 0; i < st.NumFields(); i++ {
+				if sl, isS := st.Field(i).Type().(*types.Slice); isS && (sl.Elem().String() == cqrsPkg+".CommandHandler" || sl.Elem().String() == cqrsPkg+".EventHandler") {
+					listF = st.Field(i)
+				}
+			}
+		}
+		if listF == nil {
+			continue
+		}
+		// the private method that reaches AddNoPublisherHandler for one handler
+		var addOne *ssa.Function
+		for i := 0; i < T.NumMethods(); i++ {
+			f := c.P.SSA.FuncValue(T.Method(i).Origin())
+			if f != nil && f.Object() != nil && !f.Object().Exported() && len(ReachesCall(f, 2, nAddNoPub)) > 0 && f.Signature.Results().Len() == 2 {
+				addOne = f
+			}
+		}
+		for _, mn := range []string{"AddHandler", "AddHandlers", "AddHandlersToRouter"} {
+			fn := c.P.MethodOf(T, mn)
+			if fn == nil || addOne == nil {
+				continue
+			}
+			nreg++
+			k := fn.Signature.Results().Len() - 1
+			adds := Callers([]*ssa.Function{fn}, addOne)
+			stores := FieldStores(fn, listF)
+			deferredEdge, _ := BoolEdges(fn, func(v ssa.Value) bool { return AllOrigins(v, func(o ssa.Value) bool { f := LoadedField(o); return f != nil && !f.Exported() && f.Type().String() == "bool" }) })
+			for i, r := range Returns(fn) {
+				if !RetNil(r, k) {
+					continue
+				}
+				name := fmt.Sprintf("%s.%s return#%d", tn, mn, i)
+				// where the method loops over its handlers, an iteration is what has to record / add (no handlers, nothing to do)
+				var iters []ssa.Instruction
+				AllInstrs(fn, func(in ssa.Instruction) {
+					if bo, ok := in.(*ssa.BinOp); ok && isRangeCounter(bo) {
+						for _, ad := range adds {
+							if ReachAfter(bo, nil)[ad] && ReachAfter(ad, nil)[bo] {
+								iters = append(iters, firstBodyInstr(bo))
+							}
+						}
+					}
+				})
+				reachNoCut := func(cut *Cut) bool {
+					if len(iters) == 0 {
+						return ReachEntry(fn, cut)[r]
+					}
+					for _, it := range iters {
+						if it != nil && ReachAfter(it, cut)[r] {
+							return true
+						}
+					}
+					return false
+				}
+				if mn != "AddHandlersToRouter" {
+					// (the list may also be extended once, with the whole argument, before or after the loop)
+					recorded := !reachNoCut(NewCut().AddInstrs(instrsOf2(stores)...)) || (len(iters) > 0 && !ReachEntry(fn, NewCut().AddInstrs(instrsOf2(stores)...))[r])
+					c.Report(recorded, P+".O1", "ACCEPTED-HANDLER-RECORDED", fn, r.Pos(), name, "a handler that was accepted (nil error) was appended to the processor's handler list")
+					okAdded := !reachNoCut(NewCut().AddInstrs(instrsOf(adds)...).AddEdges(deferredEdge...))
+					c.Report(okAdded, P+".O1", "ACCEPTED-HANDLER-ADDED-TO-THE-ROUTER", fn, r.Pos(), name, "a handler that was accepted was added to the router, except on the edge of the deprecated constructor's flag (which registers later, through AddHandlersToRouter)")
+				}
+				// no success from inside the per-handler loop
+				for _, ad := range adds {
+					if !InLoop(ad) {
+						continue
+					}
+					var incs []ssa.Instruction
+					AllInstrs(fn, func(in ssa.Instruction) {
+						if bo, ok := in.(*ssa.BinOp); ok && isRangeCounter(bo) && ReachAfter(bo, nil)[ad] && ReachAfter(ad, nil)[bo] {
+							incs = append(incs, bo)
+						}
+					})
+					c.Report(len(incs) > 0 && !ReachAfter(ad, NewCut().AddInstrs(incs...))[r], P+".O1", "EVERY-HANDLER-REGISTERED", fn, r.Pos(), name, "success is reported only after the loop went through every handler (no nil return from inside the per-handler loop)")
+				}
+			}
+		}
+	}
+	c.Floor(P+".O1", "registration methods of the command and event processors", nreg, 4)
+}
+
+func instrsOf2(sts []*ssa.Store) []ssa.Instruction {
+	out := make([]ssa.Instruction, len(sts))
+	for i, s := range sts {
+		out[i] = s
+	}
+	return out
 }
 
 // c15GenericHandlers: the handler adapters built by NewCommandHandler /
@@ -1012,4 +1137,126 @@ func constKey(v ssa.Value) string {
 		return ""
 	}
 	return cst.Type().String() + ":" + cst.Value.ExactString()
+}
+
+// firstBodyInstr: the first instruction of the body of the range loop whose counter is bo (the true successor of the
+// `counter < len` test), or nil.
+func firstBodyInstr(bo *ssa.BinOp) ssa.Instruction {
+	for _, ref := range *bo.Referrers() {
+		cmp, ok := ref.(*ssa.BinOp)
+		if !ok || cmp.Op != token.LSS || cmp.X != ssa.Value(bo) {
+			continue
+		}
+		for _, r2 := range *cmp.Referrers() {
+			if iff, isIf := r2.(*ssa.If); isIf && len(iff.Block().Succs) == 2 && len(iff.Block().Succs[0].Instrs) > 0 {
+				return iff.Block().Succs[0].Instrs[0]
+			}
+		}
+	}
+	return nil
+}
+
+// c15UnsetConfigFields: a component built by a (deprecated) constructor from a configuration literal that never goes
+// through setDefaults carries nil in every interface / function field the literal leaves out; the component's methods
+// call such a field only behind a test that it is set (a logger call on a nil Logger panics before the message is sent).
+func c15UnsetConfigFields(c *Check, id string) {
+	const rel = "components/cqrs"
+	sp := c.P.Pkg(rel)
+	if sp == nil {
+		return
+	}
+	// component type -> config fields some constructor leaves unset
+	unset := map[*types.Named]map[*types.Var]*ssa.Function{}
+	for _, fn := range c.P.SrcFuncsRaw(rel) {
+		if fn.Parent() != nil || fn.Object() == nil || !fn.Object().Exported() || fn.Signature.Recv() != nil {
+			continue
+		}
+		rawInstrs(fn, func(in ssa.Instruction) {
+			al, ok := in.(*ssa.Alloc)
+			if !ok {
+				return
+			}
+			C := NamedOf(al.Type())
+			if C == nil || C.Obj().Pkg() != sp.Pkg {
+				return
+			}
+			cst, ok := C.Underlying().(*types.Struct)
+			if !ok {
+				return
+			}
+			for _, ref := range *al.Referrers() {
+				fa, isFA := ref.(*ssa.FieldAddr)
+				if !isFA {
+					continue
+				}
+				T := NamedOf(cst.Field(fa.Field).Type())
+				if T == nil {
+					continue
+				}
+				tst, isSt := T.Underlying().(*types.Struct)
+				if !isSt || c.P.MethodOf(T, "setDefaults") == nil {
+					continue
+				}
+				// field by field: a literal written in place; a whole-value store comes from elsewhere (judged by DEFAULTS-APPLIED)
+				stored := map[int]bool{}
+				whole := false
+				for _, r2 := range *fa.Referrers() {
+					switch x := r2.(type) {
+					case *ssa.FieldAddr:
+						stored[x.Field] = true
+					case *ssa.Store:
+						if x.Addr == ssa.Value(fa) {
+							whole = true
+						}
+					}
+				}
+				if whole || len(stored) == 0 {
+					continue
+				}
+				for i := 0; i < tst.NumFields(); i++ {
+					f := tst.Field(i)
+					switch f.Type().Underlying().(type) {
+					case *types.Interface, *types.Signature:
+						if !stored[i] {
+							if unset[C] == nil {
+								unset[C] = map[*types.Var]*ssa.Function{}
+							}
+							unset[C][f] = fn
+						}
+					}
+				}
+			}
+		})
+	}
+	n := 0
+	for C, fields := range unset {
+		for i := 0; i < C.NumMethods(); i++ {
+			m := c.P.SSA.FuncValue(C.Method(i).Origin())
+			if m == nil {
+				continue
+			}
+			for _, f := range WithAnon(m) {
+				for _, cl := range CallsIn(f) {
+					var v ssa.Value
+					if cl.Common().IsInvoke() {
+						v = cl.Common().Value
+					} else if CalleeFn(cl.Common()) == nil {
+						v = cl.Common().Value
+					}
+					if v == nil {
+						continue
+					}
+					for fld, ctor := range fields {
+						if !AllOrigins(v, func(o ssa.Value) bool { return LoadedField(o) == fld }) {
+							continue
+						}
+						n++
+						_, set := NilEdges(f, func(x ssa.Value) bool { return AllOrigins(x, func(o ssa.Value) bool { return LoadedField(o) == fld }) })
+						c.Report(len(set) > 0 && GuardedBy(f, cl, set), id, "UNSET-CONFIG-FIELD-NOT-CALLED", f, cl.Pos(), "call through config."+fld.Name(), "config."+fld.Name()+" is nil in a "+C.Obj().Name()+" built by "+ctor.Name()+" (its literal never goes through setDefaults): it is called only behind a test that it is set")
+					}
+				}
+			}
+		}
+	}
+	c.Report(true, id, "UNSET-CONFIG-FIELDS-SCANNED", nil, token.NoPos, "package cqrs", fmt.Sprintf("%d component types with a constructor that leaves interface/function fields of the configuration unset; %d calls through such fields", len(unset), n))
 }
